@@ -189,6 +189,7 @@ package invocation
 //@
 //@ func tokenFromModel
 //@   requires m.Args != nil && m.Args.Values != nil && (forall k string :: has(m.Args.Values, k) ==> m.Args.Values[k] != nil)
+//@   ensures [C06] issuer: result1 == nil ==> result0.issuer == parsedDID(m.Iss)
 //@   ensures [C10] wellformed: result1 == nil ==> result0 != nil && wfInv(result0)
 //@   ensures [C10] command: result1 == nil ==> validCmd(string(result0.command)) && string(result0.command) == m.Cmd
 //@   ensures [C10] times: result1 == nil ==> inSafeRange(m.Exp) && inSafeRange(m.Iat)
@@ -200,3 +201,36 @@ package invocation
 //@   ensures [C10] wellformed: result1 == nil ==> result0 != nil && wfInv(result0)
 //@   loop 0: invariant 0 <= k && k <= len(opts)
 //@           decreases len(opts) - k
+//@
+//@ // ---- C06: decoding verifies the envelope ------------------------------------------------------------
+//@ pure func bindnodeInvModelsWF() bool =
+//@     forall p *tokenPayloadModel :: p != nil ==> p.Args != nil && p.Args.Values != nil && (forall k string :: has(p.Args.Values, k) ==> p.Args.Values[k] != nil)
+//@         && p.Iss == nodeStr(lookupStr(unwrapSrc(box(p)), "iss"))
+//@
+//@ func (*tokenPayloadModel).Prototype
+//@   trusted
+//@   ensures result != nil
+//@
+//@ func FromIPLD
+//@   requires node != nil && bindnodeInvModelsWF()
+//@   requires forall x any :: unwrapped(x) && x is *tokenPayloadModel ==> x.(*tokenPayloadModel) != nil      // bindnode never boxes a nil model pointer
+//@   use node_sizes, node_map_children
+//@   ensures [C06,C10] envelope: result1 == nil ==> envelopeVerified(node, Tag)
+//@   ensures [C06] issuer: result1 == nil ==> result0 != nil && result0.issuer == parsedDID(nodeStr(lookupStr(tokenPayloadOf(sigPayload(node)), "iss")))
+//@   ensures [C10] wellformed: result1 == nil ==> wfInv(result0) && validCmd(string(result0.command))
+//@
+//@ // ---- decoders from bytes: decode, then the verified FromIPLD -------------------------------------------
+//@ func Decode
+//@   requires decFn != nil
+//@   requires bindnodeInvModelsWF() && (forall x any :: unwrapped(x) && x is *tokenPayloadModel ==> x.(*tokenPayloadModel) != nil)
+//@   use node_sizes, node_map_children
+//@   ensures [C06,C10] envelope: result1 == nil ==> envelopeVerified(decodeWith(decFn, bytes(b)), Tag)
+//@ func FromDagCbor
+//@   requires bindnodeInvModelsWF() && (forall x any :: unwrapped(x) && x is *tokenPayloadModel ==> x.(*tokenPayloadModel) != nil)
+//@   use node_sizes, node_map_children
+//@   ensures [C06,C10] envelope: result1 == nil ==> envelopeVerified(decodeWith(dagcbor.Decode, bytes(data)), Tag)
+//@ func FromSealed
+//@   requires bindnodeInvModelsWF() && (forall x any :: unwrapped(x) && x is *tokenPayloadModel ==> x.(*tokenPayloadModel) != nil)
+//@   use node_sizes, node_map_children
+//@   ensures [C06,C10] envelope: result2 == nil ==> envelopeVerified(decodeWith(dagcbor.Decode, bytes(data)), Tag)
+//@   ensures [C08] cid: result2 == nil ==> result1 == ucanCid(bytes(data))
